@@ -21,7 +21,7 @@ PROPS = {
                 "and the interlacing change (their storage geometry is C18's subject); the chain over perform_reductions is tied by the lineage streams. Trusted: D1 (inflate∘deflate), "
                 "harness reference decoder (cross-checked against the png crate in C02).",
         "technique": "Lean 4 proof (per-pixel exactness lemmas) + exact model/implementation correspondence + e2e oracle",
-        "partial_note": "image-level lift (sem) and pipeline lineage theorem pending; covered by correspondence + oracle meanwhile",
+        "partial_note": "image-level theorems proved for seven of the ten reductions; bit packing 1/2/4<->8 and the interlacing change are at per-pixel / geometry level; the chain over perform_reductions is tied by lineage streams",
         "rule": "corr-reduce: each of the 10 modelled reductions on images biased to its domain (hi==lo 16-bit, gray-valued RGB, replicated bit patterns, opaque/binary alpha, keys used/unused/near-miss, "
                 "palettes with duplicates/unused/transparent entries), flags random; e2e: generated PNGs (15 type/depth pairs, interlaced or not, random row filters, split IDAT) x generated options; "
                 "distinct = distinct request lines / (input, options) pairs",
@@ -43,7 +43,7 @@ PROPS = {
                 "filtering of the rewritten rows - so C19's round trip returns exactly them - and they are kept versions of the original rows). Still by correspondence + oracle only: the alpha-flagged "
                 "reductions (colour key chosen for transparent pixels, blackened palette entries) and the heuristic strategies' choice loop itself.",
         "technique": "Lean 4 proof (induction over the pixel loop) + correspondence + e2e oracle",
-        "partial_note": "image-level composition pending",
+        "partial_note": "alpha-flagged reductions (key choice, blackened palette) and the heuristic strategies' choice loop rest on correspondence + oracle",
         "rule": "filter_line with alpha_bytes in {1,2} on rows with random transparent runs (all / none / mixed) for the five filters; e2e with optimize_alpha=true; distinct as C01",
     },
     "C08": {
@@ -113,10 +113,12 @@ PROPS = {
                  "exactly one IDAT chunk; PLTE iff indexed with 3 bytes per entry and tRNS never longer than the palette; before-PLTE / after-PLTE placement. output(), key_chunks_size and the CRC are "
                  "compared byte for byte with the code; the oracles validate every clause of the statement on real outputs with an independent strict reader (incl. metadata and APNG inputs, lossy switches, "
                  "forced output, strip modes) and require the independent `png` crate to accept and agree on the decoded data.",
-        "note": "Partial: the zlib stream being valid and inflating to the header-implied size with filter types 0-4, and every pixel index lying inside the palette, rest on D1, on C19/C18 and on the oracle; "
-                "'every structural constraint the input satisfies' is checked by the oracle (strict validation of input and output), not proved as a single monotonicity theorem.",
+        "note": "Palettes produced by the reductions are proved well-formed for all inputs: to_indexed_wellformed (<= 256 entries, depth 8, every index inside the palette), reduced_palette_wellformed (same after "
+                "condensing), depth_reduction_palette_fits (an indexed image reduced to depth d in {1,2,4} has palette.length <= 2^d, palette untouched). Partial: the zlib stream being valid and inflating to "
+                "the header-implied size with filter types 0-4 rests on D1 and on C19/C18; indices of an *input* palette image are the input's responsibility; 'every structural constraint the input "
+                "satisfies' (incl. bKGD/sBIT/hIST layout against colour type, depth and palette) is checked by the oracle's strict validation of input and output, not proved as one monotonicity theorem.",
         "technique": "Lean 4 proof (list induction over the written stream) + exact serialiser correspondence + strict-validator oracle",
-        "partial_note": "zlib validity and index-in-palette clauses are oracle-checked",
+        "partial_note": "zlib validity (D1) and the 'every constraint the input satisfies' clause are oracle-checked",
         "rule": "corr-chunks: random PngData (headers of all types, aux chunks incl. pre-IDAT fcTL, 0-2 frames, arbitrary IDAT bytes); oracles: generated files x options (Any profile) incl. files with "
                 "gAMA/cHRM/sBIT/sRGB/iCCP/bKGD/hIST/pHYs/text/private chunks and APNGs; distinct = distinct (input, options)",
     },
@@ -286,8 +288,10 @@ PROPS = {
                  "closed forms of the seven pass sizes; the pass areas partition the image. The iterator, raw_data_size, interlace_image and deinterlace_image are modelled literally and compared "
                  "with the code on every (w,h) up to 24x24 (thorough 72x72) for the legal type/depth pairs, on position-labelled images, in both directions, plus malformed lengths; "
                  "the stream also compares the code directly with the harness's own specification-derived geometry and pixel placement.",
-        "note": "Proved: iterator = specification rows, sizes, closed forms, area partition. The pixel-placement and round-trip theorems for interlace_image/deinterlace_image (bit-level scatter/gather) "
-                "are growth items; until then those two clauses rest on the exhaustive-up-to-bound correspondence and the direct comparison with specification-derived placement in the same stream. "
+        "note": "Proved: iterator = specification rows, sizes, closed forms, area partition; PLACEMENT tables: passOf_is_spec (interlace_image sends each of the 64 residues of (row, column) mod 8 to the first "
+                "pass of the specification's table whose lattice contains it) with lattice_mod8 (a pixel's pass depends only on the residues, all x, y), interlacedConstants_is_spec (deinterlace_image uses the "
+                "table's shifts and steps), incrementPass_is_spec (for every w, h >= 1 the next pass is the next non-empty one of the specification, or the end). The bit-level scatter/gather loops themselves "
+                "(their composition to the identity) rest on the exhaustive-up-to-bound correspondence and the direct comparison with specification-derived placement in the same stream. "
                 "Trusted: Lean kernel, correspondence tie (tested), harness reference geometry.",
         "technique": "Lean 4 proof (omega over unbounded sizes) + exhaustive-to-bound model/implementation correspondence",
         "rule": "all (w,h) in 1..24 (thorough 1..72) x legal colour-type/depth pairs x interlaced/not x with/without filter byte, plus sparse large sizes and "
